@@ -42,8 +42,16 @@ fn perm_strategy() -> impl Strategy<Value = Perm> {
 
 pub fn case_strategy(max_blocks: usize) -> impl Strategy<Value = Case> {
 	// fork-heavy parent choice: branch off recent nodes and ancestors of the head
-	let blk = (raw_block(0), prop_oneof![6 => Just(0u8), 5 => Just(1u8), 4 => 2u8..6, 4 => 101u8..106]).prop_map(|(mut b, p)| {
+	// (a third of the blocks with transactions spend the output that matured most recently — a coinbase exactly
+	// at its threshold: whether such a block is valid depends on the fork it is judged on)
+	let blk = (raw_block(0), prop_oneof![6 => Just(0u8), 5 => Just(1u8), 4 => 2u8..6, 4 => 101u8..106], prop::bool::weighted(0.33)).prop_map(|(mut b, p, at_threshold)| {
 		b.parent = p;
+		if at_threshold {
+			if let Some(t) = b.txs.first_mut() {
+				t.ins = vec![0];
+				t.chain_prev = false;
+			}
+		}
 		b
 	});
 	(
